@@ -323,7 +323,7 @@ func c05LoopPrograms(thorough bool, f func(fam, src string) bool) bool {
 								continue
 							}
 							loops := c05Loop(names, forms, lvl, ex, first)
-							vars := []string{"i", "j"}
+							vars := []string{"i", "j", "g", "p"} // (g is a global; p a global or the function's parameter)
 							for _, inFunc := range []bool{false, true} {
 								if !f("loop", wrap(loops, vars, inFunc)) {
 									return false
